@@ -382,3 +382,30 @@ Definition denote (keywords : list str) (ev : str -> rres value) (a : arglist)
    quote nor a backslash *)
 Definition plain_body (b : str) : bool := negb (existsb (fun c => N.eqb c 39 || N.eqb c 34 || N.eqb c 92) b).
 Definition other_quote (q : N) : N := if N.eqb q 39 then 34%N else 39%N.
+
+Definition swap_atom (a : atom) : atom :=
+  match a with
+  | AStr q b => if plain_body b then AStr (other_quote q) b else a
+  | ATrans q b => if plain_body b then ATrans (other_quote q) b else a
+  | AVar _ => a
+  end.
+Definition swap_leaf (l : leaf) : leaf :=
+  mkleaf (swap_atom (lf_head l)) (map (fun f : filt => (fst f, option_map swap_atom (snd f))) (lf_filters l)).
+
+(* apply a rewriting of leaves everywhere in an argument list *)
+Fixpoint vmap (f : leaf -> leaf) (v : sval) : sval :=
+  match v with
+  | SLeaf l => SLeaf (f l)
+  | SList items => SList (map (fun p : bool * sval => (fst p, vmap f (snd p))) items)
+  | SDict ents => SDict (map (fun p : option leaf * sval => (option_map f (fst p), vmap f (snd p))) ents)
+  end.
+Definition imap (f : leaf -> leaf) (it : item) : item :=
+  match it with
+  | IPos v => IPos (vmap f v)
+  | IKw k v => IKw k (vmap f v)
+  | ISpread v => ISpread (vmap f v)
+  | IFlag fl => IFlag fl
+  end.
+Definition amap (f : leaf -> leaf) (a : arglist) : arglist := mkarglist (map (imap f) (al_items a)) (al_slash a).
+(* the argument list written with the other quote style *)
+Definition swap_quotes (a : arglist) : arglist := amap swap_leaf a.
